@@ -3,9 +3,13 @@
 -/
 import Nuts.Model.Tx
 import NutsProofs.Props.C04
-import NutsProofs.Facts
+import NutsProofs.Pins.Commit
+import NutsProofs.Pins.Closed
 import NutsProofs.Lemmas.ReopenAll
 import NutsProofs.Pins.TxApi
+import NutsProofs.Pins.TxApiList
+import NutsProofs.Pins.TxApiSet
+import NutsProofs.Pins.TxApiZset
 namespace NutsProofs.C12
 open Nuts Nuts.Model Nuts.Model.DB NutsProofs NutsProofs.C04
 
@@ -246,9 +250,12 @@ theorem C12_failed_commit_invisible_after_reopen (opt0 : Opts) (ops : List OpA) 
   rw [← hsf] at h1 h2 h3 h4
   exact ⟨by rw [hcommit], h1, h2, congrArg SV.lists h3, congrArg SV.sets h3, congrArg SV.zsets h3, h4⟩
 
-/-- **regenerated tie.** On this run, every call of the transactional API: what it checks before queuing and what it queues — nothing else is done before `Commit` are the source lines `Nuts.Model.Tx` was written from
-(`NutsProofs.Facts.expectedTxApiStmts`). -/
-theorem C12_tx_api_regenerated : NutsGen.F.txApiStmts = NutsProofs.Facts.expectedTxApiStmts :=
-  NutsProofs.Facts.tx_api_ok
+/-- **regenerated tie.** On this run, every call of the transactional API: what it checks before queuing and what it queues — nothing else is done before `Commit` — are the source lines `Nuts.Model.Tx` was written from (`NutsProofs.Facts.expectedTxApiCore` / `List` / `Set` / `Zset`). -/
+theorem C12_tx_api_regenerated :
+    NutsProofs.Facts.txApiOfCore = NutsProofs.Facts.expectedTxApiCore ∧
+    NutsProofs.Facts.txApiOfList = NutsProofs.Facts.expectedTxApiList ∧
+    NutsProofs.Facts.txApiOfSet = NutsProofs.Facts.expectedTxApiSet ∧
+    NutsProofs.Facts.txApiOfZset = NutsProofs.Facts.expectedTxApiZset :=
+  ⟨NutsProofs.Facts.tx_api_core_ok, NutsProofs.Facts.tx_api_list_ok, NutsProofs.Facts.tx_api_set_ok, NutsProofs.Facts.tx_api_zset_ok⟩
 
 end NutsProofs.C12
